@@ -87,6 +87,11 @@ type world struct {
 	coreTx    []core.Transaction // by tx id - 1
 	txOf      map[felt.Felt]int
 	deployKey string
+	// sysJudge, when set, judges a storage diff of the block-hash registry (contract 0x1) carried
+	// by the entry for block n; only the reader's empty placeholder block may carry one
+	sysJudge func(n uint64, m map[felt.Felt]*felt.Felt) error
+	// shape toggles the degenerate encodings of "nothing": nil vs empty maps / slices
+	shape uint64
 }
 
 func newWorld(tb tables, seed int64) *world {
@@ -170,7 +175,10 @@ func (w *world) wireTx(t int) starknet.Transaction {
 
 func (w *world) wireReceipt(t int) *starknet.TransactionReceipt {
 	h := w.coreTx[t-1].Hash().Clone()
-	evs := make([]*starknet.Event, t%3)
+	var evs []*starknet.Event // nil when the receipt has no events on odd shapes, empty slice on even ones
+	if t%3 > 0 || w.shape%2 == 0 {
+		evs = make([]*starknet.Event, t%3)
+	}
 	for i := range evs {
 		evs[i] = &starknet.Event{From: w.contract['1'], Keys: []felt.Felt{*fu(t)}, Data: []felt.Felt{*fu(i)}}
 	}
@@ -225,6 +233,14 @@ func (w *world) wireDiff(t int) *starknet.StateDiff {
 			d.OldDeclaredContracts = append(d.OldDeclaredContracts, ci.hash.Clone())
 		}
 	}
+	if w.shape%2 == 1 { // a decoded JSON object without these members has nil maps
+		if len(d.StorageDiffs) == 0 {
+			d.StorageDiffs = nil
+		}
+		if len(d.Nonces) == 0 {
+			d.Nonces = nil
+		}
+	}
 	return d
 }
 
@@ -259,10 +275,10 @@ func (w *world) update(u *upd, ts uint64) starknet.PreConfirmedUpdate {
 
 // classes builds a FRESH newClasses map (nil when empty, like the poller does).
 func (w *world) classes(ids []string) map[felt.Felt]core.ClassDefinition {
-	if len(ids) == 0 {
+	if len(ids) == 0 && w.shape%3 != 0 {
 		return nil
 	}
-	m := make(map[felt.Felt]core.ClassDefinition, len(ids))
+	m := make(map[felt.Felt]core.ClassDefinition, len(ids)) // every third call: empty but non-nil
 	for _, id := range ids {
 		m[w.class[id].hash] = w.class[id].def
 	}
@@ -305,10 +321,21 @@ func (w *world) coreDiff(d map[string]int, genesis bool) (*core.StateDiff, map[f
 }
 
 func (w *world) newCanon(newState bool, opts ...blockchain.Option) (*chainkit.Node, error) {
+	return w.newCanonAt(newState, 0, opts...)
+}
+
+// newCanonAt puts `off` empty blocks on top of genesis, so that the model's block n is the real
+// block n+off (used to carry behaviours across the BlockHashLag boundary at height 10).
+func (w *world) newCanonAt(newState bool, off uint64, opts ...blockchain.Option) (*chainkit.Node, error) {
 	n := chainkit.NewNode(nil, newState, opts...)
 	sd, classes := w.coreDiff(w.tb.Genesis, true)
 	if _, err := n.Append(chainkit.BlockSpec{Diff: sd, Classes: classes, Timestamp: 1000}); err != nil {
 		return nil, fmt.Errorf("genesis: %w", err)
+	}
+	for i := uint64(0); i < off; i++ {
+		if _, err := n.Append(chainkit.BlockSpec{Timestamp: 1001 + i}); err != nil {
+			return nil, fmt.Errorf("offset block %d: %w", i+1, err)
+		}
 	}
 	return n, nil
 }
@@ -322,6 +349,10 @@ func (w *world) headAdvance(n *chainkit.Node, height, variant int) error {
 // ------------------------------------------------------------------ projection
 
 func (w *world) projectDiff(sd *core.StateDiff) (map[string]int, error) {
+	return w.projectDiffAt(sd, 0, false)
+}
+
+func (w *world) projectDiffAt(sd *core.StateDiff, n uint64, sysAllowed bool) (map[string]int, error) {
 	out := map[string]int{}
 	for _, k := range w.tb.SK {
 		out[k] = noW
@@ -355,6 +386,13 @@ func (w *world) projectDiff(sd *core.StateDiff) (map[string]int, error) {
 	}
 	for a, m := range sd.StorageDiffs {
 		c, ok := cOf(a)
+		if !ok && a.Equal(core.BlockHashStorageContract) && sysAllowed && w.sysJudge != nil {
+			// the block-hash registry: only the empty placeholder block may write it
+			if err := w.sysJudge(n, m); err != nil {
+				return nil, err
+			}
+			continue
+		}
 		if !ok {
 			return nil, fmt.Errorf("storage diff of unknown contract %s", &a)
 		}
@@ -460,7 +498,8 @@ func (w *world) projectEntry(pc *pending.PreConfirmed) (slot, map[string]int, er
 	if pc.Block.EventCount != events {
 		return s, nil, fmt.Errorf("event count %d, receipts hold %d", pc.Block.EventCount, events)
 	}
-	d, err := w.projectDiff(pc.StateUpdate.StateDiff)
+	placeholderShaped := n == 0 && len(pc.NewClasses) == 0 && s.ID == w.tb.Blank
+	d, err := w.projectDiffAt(pc.StateUpdate.StateDiff, s.Num, placeholderShaped)
 	if err != nil {
 		return s, nil, err
 	}
@@ -557,32 +596,43 @@ func fingerprint(c *preconfirmed.ChainReader) string {
 	var sb strings.Builder
 	fmt.Fprintf(&sb, "len=%d;", c.Length())
 	for pc := range c.OldestFirst() {
-		fmt.Fprintf(&sb, "[%p n=%d id=%q ", pc, pc.Block.Number, pc.BlockIdentifier)
-		h := pc.Block.Header
-		fmt.Fprintf(&sb, "hdr(%p %d %d %d %s %v %v)", pc.Block, h.TransactionCount, h.EventCount, h.Timestamp, h.ProtocolVersion,
-			h.SequencerAddress, h.L1GasPriceETH)
-		if h.EventsBloom != nil {
-			b, _ := h.EventsBloom.MarshalBinary()
-			fmt.Fprintf(&sb, "bloom(%x)", sha1.Sum(b))
-		}
-		for i, tx := range pc.Block.Transactions {
-			fmt.Fprintf(&sb, " tx%d=%s", i, tx.Hash())
-		}
-		for i, r := range pc.Block.Receipts {
-			fmt.Fprintf(&sb, " rc%d=%s/%d/%v", i, r.TransactionHash, len(r.Events), r.Fee)
-		}
-		fmt.Fprintf(&sb, " su(%p)=%s", pc.StateUpdate, dumpDiff(pc.StateUpdate.StateDiff))
-		for i, d := range pc.TransactionStateDiffs {
-			fmt.Fprintf(&sb, " td%d=%s", i, dumpDiff(d))
-		}
-		keys := []string{}
-		for k, def := range pc.NewClasses {
-			keys = append(keys, fmt.Sprintf("%s:%p", &k, def))
-		}
-		sort.Strings(keys)
-		fmt.Fprintf(&sb, " cls=%v]", keys)
+		fpEntry(&sb, pc)
 	}
 	return sb.String()
+}
+
+// fingerprintEntry is the deep dump of one entry (used for entries returned by ApplyUpdate).
+func fingerprintEntry(pc *pending.PreConfirmed) string {
+	var sb strings.Builder
+	fpEntry(&sb, pc)
+	return sb.String()
+}
+
+func fpEntry(sb *strings.Builder, pc *pending.PreConfirmed) {
+	fmt.Fprintf(sb, "[%p n=%d id=%q ", pc, pc.Block.Number, pc.BlockIdentifier)
+	h := pc.Block.Header
+	fmt.Fprintf(sb, "hdr(%p %d %d %d %s %v %v)", pc.Block, h.TransactionCount, h.EventCount, h.Timestamp, h.ProtocolVersion,
+		h.SequencerAddress, h.L1GasPriceETH)
+	if h.EventsBloom != nil {
+		b, _ := h.EventsBloom.MarshalBinary()
+		fmt.Fprintf(sb, "bloom(%x)", sha1.Sum(b))
+	}
+	for i, tx := range pc.Block.Transactions {
+		fmt.Fprintf(sb, " tx%d=%s", i, tx.Hash())
+	}
+	for i, r := range pc.Block.Receipts {
+		fmt.Fprintf(sb, " rc%d=%s/%d/%v", i, r.TransactionHash, len(r.Events), r.Fee)
+	}
+	fmt.Fprintf(sb, " su(%p)=%s", pc.StateUpdate, dumpDiff(pc.StateUpdate.StateDiff))
+	for i, d := range pc.TransactionStateDiffs {
+		fmt.Fprintf(sb, " td%d=%s", i, dumpDiff(d))
+	}
+	keys := []string{}
+	for k, def := range pc.NewClasses {
+		keys = append(keys, fmt.Sprintf("%s:%p", &k, def))
+	}
+	sort.Strings(keys)
+	fmt.Fprintf(sb, " cls=%v]", keys)
 }
 
 // fpDelta shows where two fingerprints part (the full dumps are long).
